@@ -161,6 +161,11 @@ def run(sc):
     if not np.all(np.isfinite(S)):
       stats["skipped"]["nonfinite_state"] = stats["skipped"].get("nonfinite_state", 0) + 1
       break
+    if float(np.max(np.abs(S[:, 1 : 1 + mjm.nq + mjm.nv]))) > 1e3:
+      # a world that has flown apart (positions / velocities beyond 1e3): round-off of a re-ordered sum is amplified without bound there,
+      # nothing about thread order is learned from it
+      stats["skipped"]["diverged_state"] = stats["skipped"].get("diverged_state", 0) + 1
+      break
     caps = ample
     if sc["caps"] == "exact":
       # measure the need of this very op on a scratch copy, then give X and Y exactly that much
